@@ -277,7 +277,7 @@ pub fn property() -> Property {
         id: "C04",
         rule: "Histories of 1-80 operations over {enter/replace a line, delete by bare number (existing or not), failed edit (unterminated string, illegal character, bad numeral, multi-byte), 20+-digit pseudo line numbers, LIST, RUN}; line numbers from {0..11} (forcing collisions), {0, 1, 9, 10, 2^32, 2^63, 2^64-2, 2^64-1} and random u64, spelled with leading zeros / leading blanks / with or without a blank before the statement. serial-payloads: each entered line is `PRINT <serial>` or, one time in four, `REM <serial>` (a line that must be listed but prints nothing), one in twelve `STOP` (RUN ends there and leaves the program suspended while the next edits arrive); oracle = BTreeMap updated by the stated rules, LIST must equal its rendering and RUN must print the serials in key order (independent of the tokenizer). statement-payloads: arbitrary generated statements; LIST and RUN must equal those of a fresh interpreter into which the map's surviving lines are typed once in ascending order. LIST and RUN are checked wherever they occur and at the end. Non-trivial: >= 1 replace, >= 1 delete of an existing line, >= 1 failed edit and >= 3 surviving lines; distinct by op-kind sequence + surviving numbers.",
         assumptions: vec!["RUN transcripts are compared under a 2000-turn budget"],
-        fuzz: Some(FuzzSpec { target: "c04_edits", runs: 100_000, max_len: 400, verdict: crate::fuzz::c04_verdict }),
+        fuzz: Some(FuzzSpec { target: "c04_edits", runs: 40_000, max_len: 400, verdict: crate::fuzz::c04_verdict }),
         families,
         prelude: None,
         epilogue: None,
